@@ -23,3 +23,16 @@ claim('C07', 'Lean 4 proofs (recursive-descent parser = stratified grammar, exac
       'truncation toward zero; BYTEn = two\'s-complement byte n; every literal notation denotes its value. Each run compares the '
       'real CLI with the model on grammar-generated, malformed and corner-case expression texts.',
       NOTE + ' The tokeniser regex is modelled by a hand-written scanner (validated, not verified).')
+
+claim('C03', 'Lean 4 proofs (image = window of the address->byte map) + differential correspondence',
+      'Kernel-checked theorems: the image of window [start,end] has length end-start+1 and at offset a-start the byte an unmuted '
+      'line emitted for a, the fill value elsewhere (also for lines straddling the window edges); muted lines contribute nothing; '
+      'without an end the window stops at the highest emitted address. Each run compares .bin of the real CLI with the model on '
+      'generated programs x windows.',
+      NOTE)
+claim('C04', 'Lean 4 proofs (adjacent-range check on the stable address sort <-> pairwise disjointness) + differential correspondence',
+      'Kernel-checked theorems: on the address-sorted line list the adjacent-range check passes iff all byte lines occupying at '
+      'least one address are pairwise disjoint (both directions), independently of source order; zero-length lines never cause a '
+      'rejection; the sort is a stable permutation. Each run compares the accept/reject verdict of the real CLI with the impl-level '
+      'check and with the pairwise spec on generated placements.',
+      NOTE)
